@@ -178,7 +178,7 @@ def _invalid(draw):
     good = [0.1, "Mil"]
     case = {"kind": kind, "fp": "FFP", "calib": [100.0, "Meter"], "h": list(good), "v": list(good)}
     if kind == "focal":
-        case["fp"] = draw(st.one_of(st.sampled_from(["ffp", "sfp", "XFP", "", "FFP ", "F", "lwir", "TFP"]),
+        case["fp"] = draw(st.one_of(st.sampled_from(["ffp", "sfp", "sfp", "Sfp", "sFP", "XFP", "", "FFP ", "F", "lwir", "Lwir", "TFP"]),
                                     st.text(min_size=0, max_size=5).filter(lambda s: s not in ("FFP", "SFP", "LWIR"))))
     elif kind == "sfp-nocal":
         case["fp"] = "SFP"
@@ -213,6 +213,28 @@ def check_invalid(case):
             h = None
         if case["which"] in ("v", "both"):
             v = None
+    if kind == "focal" and case["fp"].upper() in ("FFP", "SFP", "LWIR"):
+        # another letter case of a known name: rejecting it is fine; a library that accepts it must then treat it as that focal
+        # plane in every respect - the missing calibration distance of a second-focal-plane sight included
+        r.label("invalid:focal:letter-case-variant")
+        canon = case["fp"].upper()
+        try:
+            s = pb.Sight(case["fp"], calib, h, v)
+        except Exception:  # noqa
+            s = None
+        if s is not None:
+            ref_s = pb.Sight(canon, calib, h, v)
+            args = (pb.Distance.Meter(300.0), pb.Angular.Mil(1.3), pb.Angular.Mil(-0.7), 8.0)
+            a, b = s.get_adjustment(*args), ref_s.get_adjustment(*args)
+            if (a.vertical, a.horizontal) != (b.vertical, b.horizontal):
+                r.bad("C19:accepts:focal:letter-case-variant-differs", f"Sight({case['fp']!r}, ...) is accepted but counts {a} where Sight({canon!r}, ...) counts {b}")
+        if canon == "SFP":
+            try:
+                s2 = pb.Sight(case["fp"], None, h, v)
+            except Exception:  # noqa
+                return r
+            r.bad("C19:accepts:sfp-nocal", f"Sight({case['fp']!r}, None, ...) was accepted as a second-focal-plane sight without a calibration distance: {s2}")
+        return r
     try:
         s = pb.Sight(case["fp"], calib, h, v)
     except Exception:  # rejected, as required
